@@ -299,6 +299,8 @@ class Check:
     @staticmethod
     def norm(rel: str) -> str:
         rel = re.sub(r'tmp[a-z0-9_]{6,}', 'tmpXXXX', rel)
+        # the wrapper's name carries a digest of a command line that contains the (per-run) scratch path
+        rel = re.sub(r'(meson_exe_[^/ ]*?_)[0-9a-f]{40}(\.dat)', r'\1<HASH>\2', rel)
         return rel
 
     @staticmethod
